@@ -340,7 +340,8 @@ func (p *Plugin) out(workerData *pipeline.WorkerData, batch *pipeline.Batch) err
 
 	dataArr := root.AddFieldNoAlloc(root, "data").MutateToArray()
 	batch.ForEach(func(event *pipeline.Event) {
-		dataArr.AddElementNoAlloc(root).MutateToNode(event.Root.Node)
+		// a private copy: send strips fields off these nodes, the events themselves must stay intact for a retry or the dead queue
+		dataArr.AddElementNoAlloc(root).MutateToJSON(root, event.Root.EncodeToString())
 	})
 
 	code, err := p.send(root)
